@@ -3,8 +3,10 @@ package storex
 // Histories of real chaining calls with per-step snapshots (shared by the C08/C12/C15/C14 harnesses).
 
 import (
+	"encoding/json"
 	"fmt"
 	"os"
+	"sort"
 	"strings"
 
 	"github.com/kaptinlin/gozod/core"
@@ -393,9 +395,11 @@ func (h *Hist) convCore(i, opt int, o *hx.Out) (doc, same string, changed, bagCh
 	same = "1"
 	if doc != iso {
 		same = "0"
-		if h.Def && h.isoNondeterministic(i, opt, iso) {
-			same = "n"
-			o.Count("conv:nondeterministic-in-isolation")
+		if h.Def {
+			if keys, nd := h.isoNondeterministic(i, opt, iso); nd {
+				same = "n" + keys
+				o.Count("conv:nondeterministic-in-isolation")
+			}
 		}
 		if os.Getenv("C08_DEBUG") != "" {
 			fmt.Fprintf(os.Stderr, "DOC %s live=%d opt=%d %s\n  got: %s\n  iso: %s\n", h.Base.Name, i, opt, same, doc, iso)
@@ -413,18 +417,44 @@ func (h *Hist) convCore(i, opt int, o *hx.Out) (doc, same string, changed, bagCh
 }
 
 // isoNondeterministic: do fresh isolated twins (nothing converted before, nothing shared with this history) convert
-// to more than one document?
-func (h *Hist) isoNondeterministic(i, opt int, first string) bool {
+// to more than one document? If so, also the top-level keywords in which two such documents differ (joined by "+").
+func (h *Hist) isoNondeterministic(i, opt int, first string) (string, bool) {
 	for try := 0; try < 24; try++ {
 		twin := Replay(h.Base, h.Calls)
 		if twin == nil || i >= len(twin) {
-			return false
+			return "", false
 		}
-		if JS(twin[i], OptionsFor(opt, twin, i)) != first {
-			return true
+		if d := JS(twin[i], OptionsFor(opt, twin, i)); d != first {
+			return docDiffKeys(first, d), true
 		}
 	}
-	return false
+	return "", false
+}
+
+// docDiffKeys lists the top-level keywords whose values differ between two documents ("document" when one of them is
+// an error or a panic).
+func docDiffKeys(a, b string) string {
+	var ma, mb map[string]json.RawMessage
+	if json.Unmarshal([]byte(a), &ma) != nil || json.Unmarshal([]byte(b), &mb) != nil {
+		return "document"
+	}
+	set := map[string]bool{}
+	for k, v := range ma {
+		if w, ok := mb[k]; !ok || string(w) != string(v) {
+			set[k] = true
+		}
+	}
+	for k := range mb {
+		if _, ok := ma[k]; !ok {
+			set[k] = true
+		}
+	}
+	var ks []string
+	for k := range set {
+		ks = append(ks, k)
+	}
+	sort.Strings(ks)
+	return strings.Join(ks, "+")
 }
 
 // Conv converts live[i] with option set opt (see convCore).
